@@ -11,7 +11,7 @@ cd "$WT"
 ( ./configure && make -j16 ) >/dev/null 2>&1 || { echo "clean build failed"; }
 bash "$D/demo$K.sh" "$WT" >$L/clean.out 2>&1; CLEAN=$?
 git apply "$D/patch$K.diff" || { echo "patch does not apply"; git -C /repo worktree remove --force "$WT"; exit 2; }
-make -j16 >$L/build.out 2>&1; BUILD=$?
+make clean >/dev/null 2>&1; make -j16 >$L/build.out 2>&1; BUILD=$?
 bash "$D/demo$K.sh" "$WT" >$L/patched.out 2>&1; PATCHED=$?
 make tests >$L/tests.out 2>&1; TESTS=$?
 NPASS=$(grep -c -i "pass" $L/tests.out); NFAIL=$(grep -c -i "fail" $L/tests.out)
